@@ -299,6 +299,95 @@ def read_sge() -> dict:
     return {"factory": factory, "aug_before_submit": aug_before, "aug_src": aug_src, "load_job_params": params, "load_job_kwargs_used": kw_used, "has_var_kw": lj.args.kwarg is not None}
 
 
+def read_rc_tests() -> dict:
+    """the failure test each environment applies to the command's return code: the top-level `if` of `execute` whose
+    test reads the return code; every branch of its body must end in `raise RuntimeError(...)`"""
+    from harness.extractors.job_skeleton import rc_test, rc_test_lean
+
+    out = {}
+    for mod, clsname in (("docker", "Docker"), ("singularity", "Singularity"), ("lmod", "Lmod")):
+        ex = _fn(_cls(_parse(f"pydra/environments/{mod}.py"), clsname), "execute")
+        ifs = [st for st in ex.body if isinstance(st, ast.If) and "return_code" in ast.unparse(st.test)]
+        if len(ifs) != 1:
+            raise ExtractError(f"{clsname}.execute: expected exactly one top-level return-code test, found {len(ifs)}")
+        st = ifs[0]
+        if st.orelse:
+            raise ExtractError(f"{clsname}.execute: the return-code test has an else branch")
+
+        def always_raises(body) -> bool:
+            last = body[-1]
+            if isinstance(last, ast.Raise):
+                return isinstance(last.exc, ast.Call) and ast.unparse(last.exc.func) == "RuntimeError"
+            if isinstance(last, ast.If) and last.orelse:
+                return always_raises(last.body) and always_raises(last.orelse)
+            return False
+
+        if not always_raises(st.body):
+            raise ExtractError(f"{clsname}.execute: a true return-code test does not always end in raise RuntimeError")
+        # the tested value must be what base.execute returned: `values = base.execute(...)` then zip / unpacking
+        src = ast.unparse(ex)
+        if mod == "lmod":
+            if "values = base.execute(cmd_args, env=env)" not in src or "return_code, stdout, stderr = values" not in src:
+                raise ExtractError("Lmod.execute: the return code is no longer taken from base.execute unchanged")
+        else:
+            if "output = dict(zip(keys, values))" not in src or "keys = ['return_code', 'stdout', 'stderr']" not in src:
+                raise ExtractError(f"{clsname}.execute: the return code is no longer taken from base.execute unchanged")
+        t = rc_test(st.test)
+        out[mod] = {"src": ast.unparse(st.test), "tree": t, "lean": rc_test_lean(t)}
+    return out
+
+
+def read_load_and_run() -> dict:
+    """`load_and_run` (pydra/engine/job.py): keyword names of the `Result(...)` calls in its two error paths, the field
+    names of `Result` (pydra/engine/result.py) and which of them have no default, the order of the statements in the
+    two handlers"""
+    job = _parse("pydra/engine/job.py")
+    fn = next((n for n in job.body if isinstance(n, ast.FunctionDef) and n.name == "load_and_run"), None)
+    if fn is None:
+        raise ExtractError("job.load_and_run not found")
+    calls = [n for n in ast.walk(fn) if isinstance(n, ast.Call) and ast.unparse(n.func) == "Result"]
+    calls.sort(key=lambda c: c.lineno)
+    if len(calls) != 2:
+        raise ExtractError(f"load_and_run: expected two Result(...) calls, found {len(calls)}")
+    kwargs = []
+    for c in calls:
+        if c.args or any(k.arg is None for k in c.keywords):
+            raise ExtractError("load_and_run: Result(...) called with positional or ** arguments")
+        kwargs.append([k.arg for k in c.keywords])
+    res = _cls(_parse("pydra/engine/result.py"), "Result")
+    fields, mandatory = [], []
+    for st in res.body:
+        if isinstance(st, ast.AnnAssign) and isinstance(st.target, ast.Name):
+            fields.append(st.target.id)
+            if st.value is None:
+                mandatory.append(st.target.id)
+    if not fields:
+        raise ExtractError("Result: no fields found")
+    tries = [st for st in fn.body if isinstance(st, ast.Try)]
+    if len(tries) != 2:
+        raise ExtractError("load_and_run: expected two try statements")
+    handlers = []
+    for t in tries:
+        if len(t.handlers) != 1 or ast.unparse(t.handlers[0].type) != "Exception":
+            raise ExtractError("load_and_run: handler shape changed")
+        h = t.handlers[0]
+        handlers.append([ast.unparse(s).split("\n")[0] for s in h.body])
+    # does load_and_run turn its argument into a Path before using `.parent`?  do the batch scripts pass a quoted string?
+    body = [st for k, st in enumerate(fn.body) if not (k == 0 and isinstance(st, ast.Expr) and isinstance(st.value, ast.Constant))]
+    converts = any(
+        isinstance(st, ast.Assign) and ast.unparse(st.targets[0]) == "job_pkl" and ast.unparse(st.value).startswith("Path(")
+        for st in body
+        if st.lineno < tries[0].lineno
+    )
+    uses_parent = "job_pkl.parent" in ast.unparse(tries[0])
+    prep = _fn(_cls(_parse("pydra/workers/slurm.py"), "SlurmWorker"), "_prepare_runscripts")
+    consts = "".join(n.value for n in ast.walk(prep) if isinstance(n, ast.Constant) and isinstance(n.value, str))
+    if "load_and_run(" not in consts:
+        raise ExtractError("SlurmWorker._prepare_runscripts: the load_and_run call of the batch script was not found")
+    quoted = 'load_and_run("' in consts or "load_and_run('" in consts
+    return {"kwargs": kwargs, "fields": fields, "mandatory": mandatory, "handlers": handlers, "converts": converts, "uses_parent": uses_parent, "quoted": quoted}
+
+
 def py_space_codes() -> list[int]:
     return [c for c in range(sys.maxunicode + 1) if re.match(r"\s", chr(c))]
 
@@ -308,9 +397,13 @@ def extract_env_regexes(ctx=None):
     ct = read_container()
     sl = read_slurm()
     sg = read_sge()
+    rt = read_rc_tests()
+    lr = read_load_and_run()
     L = []
     L.append("/- GENERATED by harness/extractors/env_regexes.py from /repo's working tree — do not edit. -/")
+    L.append("import PydraModel.JobProto.RcTest")
     L.append("namespace PydraModel.Gen.EnvRegexes")
+    L.append("open PydraModel.JobProto")
     L.append("")
     L.append("/-- code points matched by `\\s` in a CPython str pattern -/")
     L.append("def pySpaceCodes : List Nat := [" + ", ".join(str(c) for c in py_space_codes()) + "]")
@@ -355,6 +448,21 @@ def extract_env_regexes(ctx=None):
     L.append(f"def loadJobParams : List String := {lean_strs(sg['load_job_params'])}")
     L.append(f"def loadJobHasVarKw : Bool := {'true' if sg['has_var_kw'] else 'false'}")
     L.append(f"def sgeLoadJobKwargsUsed : List String := {lean_strs(sg['load_job_kwargs_used'])}")
+    L.append("")
+    L.append("/-! the failure test on the command's return code (docker.py, singularity.py, lmod.py) -/")
+    for mod in ("docker", "singularity", "lmod"):
+        L.append(f"def {mod}RcTestSrc : String := {lean_str(rt[mod]['src'])}")
+        L.append(f"def {mod}RcTest : RcTest := {rt[mod]['lean']}")
+    L.append("")
+    L.append("/-! pydra/engine/job.py (load_and_run), pydra/engine/result.py (Result) -/")
+    L.append("def loadAndRunResultKwargs : List (List String) := [" + ", ".join(lean_strs(k) for k in lr["kwargs"]) + "]")
+    L.append(f"def resultFields : List String := {lean_strs(lr['fields'])}")
+    L.append(f"def resultMandatoryFields : List String := {lean_strs(lr['mandatory'])}")
+    L.append("def loadAndRunHandlers : List (List String) := [" + ", ".join(lean_strs(h) for h in lr["handlers"]) + "]")
+    L.append("/-- the first handler uses `job_pkl.parent`; load_and_run converts its argument with Path(...) first; the SLURM batch script passes a quoted string -/")
+    L.append(f"def loadAndRunUsesParent : Bool := {'true' if lr['uses_parent'] else 'false'}")
+    L.append(f"def loadAndRunConvertsPath : Bool := {'true' if lr['converts'] else 'false'}")
+    L.append(f"def slurmPassesQuotedPath : Bool := {'true' if lr['quoted'] else 'false'}")
     L.append("")
     L.append("end PydraModel.Gen.EnvRegexes")
     out = core.LEAN / "PydraModel" / "Gen" / "EnvRegexes.lean"
